@@ -36,3 +36,35 @@ Theorem C04_first_rejection_wins : forall mws url ip fp,
   PyGen.gen_chain_process mws url ip fp = Equiv.chain_spec mws url ip fp.
 Proof. exact Equiv.chain_process_tie. Qed.
 Print Assumptions C04_first_rejection_wins.
+
+(* ---- the same theorems about the code: `gen_run` / `gen_final` / `gen_step` / `cl_data_received` are the connection's
+   transition function assembled from the translation of /repo/src/nauyaca/server/protocol.py (coq/Gen/ServerGen.v,
+   regenerated from the working tree on every run; event dispatch in coq/Equiv/ServerLoop.v).  `reenc_ok` is the one
+   assumed fact about CPython's lenient UTF-8 decoder (satisfiable: EquivServerLoop.reenc_ok_satisfiable). ---- *)
+From NV Require Import Prelude.Utf8 Equiv.ServerGlue Gen.ServerGen Equiv.ServerLoop.
+From NV Require Equiv.EquivServerLoop Proofs.Server_on_code.
+Theorem C04_gate_on_code : forall reenc : str -> str,
+  EquivServerLoop.reenc_ok reenc ->
+  forall ip6 c evs,
+  Spec.C04.gate c (Spec.C04.expected_url ip6 (stream evs)) evs
+    (gen_run reenc ip6 (fun _ => c_hres c) (c_mw c) (c_upload c) (c_ip c) (c_fp c) init evs) [] false = true.
+Proof. exact Server_on_code.gate_on_code. Qed.
+Print Assumptions C04_gate_on_code.
+
+Theorem C04_no_invocation_without_allow_on_code : forall reenc : str -> str,
+  EquivServerLoop.reenc_ok reenc ->
+  forall ip6 handler up ip fp evs,
+  (forall i t, ~ In (EDone i (OMw true t)) evs) ->
+  existsb is_invocation (flat (gen_run reenc ip6 handler true up ip fp init evs)) = false.
+Proof. exact Server_on_code.no_invocation_without_allow_on_code. Qed.
+Print Assumptions C04_no_invocation_without_allow_on_code.
+
+Theorem C04_refusal_on_code : forall reenc : str -> str,
+  EquivServerLoop.reenc_ok reenc ->
+  forall ip6 c evs, c_mw c = true ->
+  valid_reads evs (gen_run reenc ip6 (fun _ => c_hres c) (c_mw c) (c_upload c) (c_ip c) (c_fp c) init evs) false = true ->
+  Spec.C04.refusal c evs
+    (gen_run reenc ip6 (fun _ => c_hres c) (c_mw c) (c_upload c) (c_ip c) (c_fp c) init evs) = true.
+Proof. exact Server_on_code.refusal_on_code. Qed.
+Print Assumptions C04_refusal_on_code.
+
